@@ -21,6 +21,8 @@ import JV.Proofs.JsonParserString
 import JV.Proofs.JsonParserRefine
 import JV.Proofs.JsonParserSoundScalar
 import JV.Proofs.JsonParserSound
+import JV.Proofs.JsonParserOptsComments
+import JV.Proofs.JsonParserOptsSlashFree
 import JV.Proofs.JsonParserSoundNec
 namespace JV.Props.C02
 open JV Spec.Rfc8259
@@ -348,6 +350,189 @@ example : accepted (run ⟨8, false, true⟩ [91, 49, 44, 93]) = true ∧
 example : accepted (run ⟨8, true, false⟩ [91, 49, 47, 42, 42, 47, 93]) = true ∧
     (parseText { comments := false, trailingComma := false, maxDepth := 8 } [91, 49, 47, 42, 42, 47, 93]).isSome = false := by decide
 end ParserRefinement
+
+/-! ### the options: `allow_trailing_comma` and `allow_comments` relax exactly those two constructs (proofs: the simulations of
+    Proofs/JsonParserRefine and Proofs/JsonParserSound are carried out for the reference WITH the trailing-comma production
+    whenever the parser has the option; Proofs/JsonParserOpts* for comments) -/
+section ParserOptions
+open Model.JsonParser
+
+/-- COMPLETENESS with `allow_trailing_comma`: whatever the reference with the trailing-comma production (`, ws ]` and `, ws }`
+    after at least one element / member; no comments; the parser's nesting limit) reads as a value, the parser with the option on
+    accepts, reporting the events of that value (a trailing comma reports nothing) -/
+theorem parse_complete_trailing_comma (cfg : Cfg) (bs : Bytes) (v : JT) (ht : cfg.trailingComma = true)
+    (h : parseText { comments := false, trailingComma := true, maxDepth := cfg.maxDepth } bs = some v) :
+    accepted (run cfg bs) = true ∧ (run cfg bs).evs.reverse.map eraseNoesc = eventsOf v :=
+  run_complete_tc cfg bs v (by
+    rw [show tcFlags cfg = { comments := false, trailingComma := true, maxDepth := cfg.maxDepth } from (by simp [ht])]
+    exact h)
+
+/-- SOUNDNESS with `allow_trailing_comma` (comments off): whatever the parser accepts on a text without a surrogate anomaly, the
+    reference with the trailing-comma production reads as a value, and the events are those of the value. So the option allows
+    NOTHING but a comma before the closing bracket of a non-empty container (`[,]`, `[1,,]`, `{,}` stay errors). -/
+theorem parse_sound_trailing_comma (cfg : Cfg) (bs : Bytes) (hc : cfg.comments = false) (ht : cfg.trailingComma = true)
+    (hs : NoSurrogateAnomaly bs) (h : accepted (run cfg bs) = true) :
+    ∃ v, parseText { comments := false, trailingComma := true, maxDepth := cfg.maxDepth } bs = some v ∧
+      (run cfg bs).evs.reverse.map eraseNoesc = eventsOf v := by
+  obtain ⟨v, hv⟩ := run_sound_tc cfg hc bs hs h
+  refine ⟨v, ?_, (run_complete_tc cfg bs v hv).2⟩
+  rwa [show tcFlags cfg = { comments := false, trailingComma := true, maxDepth := cfg.maxDepth } from (by simp [ht])] at hv
+
+/-- EXACTNESS with `allow_trailing_comma`: on texts without a surrogate anomaly the parser with trailing commas on (comments off)
+    accepts exactly the texts of the grammar extended by the one trailing-comma production -/
+theorem parse_exact_trailing_comma (cfg : Cfg) (bs : Bytes) (hc : cfg.comments = false) (ht : cfg.trailingComma = true)
+    (hs : NoSurrogateAnomaly bs) :
+    accepted (run cfg bs) = true ↔
+      (parseText { comments := false, trailingComma := true, maxDepth := cfg.maxDepth } bs).isSome = true := by
+  constructor
+  · intro h
+    obtain ⟨v, hv, _⟩ := parse_sound_trailing_comma cfg bs hc ht hs h
+    simp [hv]
+  · intro h
+    cases hv : parseText { comments := false, trailingComma := true, maxDepth := cfg.maxDepth } bs with
+    | none => simp [hv] at h
+    | some v => exact (parse_complete_trailing_comma cfg bs v ht hv).1
+
+/-- both settings of the option at once: with comments off, the parser accepts exactly what the reference with THE SAME
+    trailing-comma flag derives (on anomaly-free texts), with the same events -/
+theorem parse_exact_any_trailing_comma (cfg : Cfg) (bs : Bytes) (hc : cfg.comments = false) (hs : NoSurrogateAnomaly bs) :
+    accepted (run cfg bs) = true ↔
+      (parseText { comments := false, trailingComma := cfg.trailingComma, maxDepth := cfg.maxDepth } bs).isSome = true := by
+  constructor
+  · intro h
+    obtain ⟨v, hv⟩ := run_sound_tc cfg hc bs hs h
+    simp [hv]
+  · intro h
+    cases hv : parseText { comments := false, trailingComma := cfg.trailingComma, maxDepth := cfg.maxDepth } bs with
+    | none => simp [hv] at h
+    | some v => exact (run_complete_tc cfg bs v hv).1
+
+-- non-vacuity: [1,] and {"a":1,} and [[1 , ] ,\r] — accepted by both with the option on, by neither with it off; the events
+example : accepted (run ⟨8, false, true⟩ [91, 49, 44, 93]) = true ∧
+    (parseText { comments := false, trailingComma := true, maxDepth := 8 } [91, 49, 44, 93]).isSome = true := by decide
+example : (run ⟨8, false, true⟩ [91, 49, 44, 93]).evs.reverse = [.beginArray, .int [49], .endArray] := by decide
+example : accepted (run ⟨8, false, true⟩ [123, 34, 97, 34, 58, 49, 44, 125]) = true ∧
+    (parseText { comments := false, trailingComma := true, maxDepth := 8 } [123, 34, 97, 34, 58, 49, 44, 125]).isSome = true := by decide
+example : (run ⟨8, false, true⟩ [123, 34, 97, 34, 58, 49, 44, 125]).evs.reverse =
+    [.beginObject, .key [97], .int [49], .endObject] := by decide
+example : accepted (run ⟨8, false, true⟩ [91, 91, 49, 32, 44, 32, 93, 32, 44, 13, 93]) = true ∧
+    (parseText { comments := false, trailingComma := true, maxDepth := 8 } [91, 91, 49, 32, 44, 32, 93, 32, 44, 13, 93]).isSome = true := by
+  decide
+example : NoSurrogateAnomaly [123, 34, 97, 34, 58, 49, 44, 125] := by decide
+example : accepted (run ⟨8, false, false⟩ [123, 34, 97, 34, 58, 49, 44, 125]) = false ∧
+    (parseText { comments := false, trailingComma := false, maxDepth := 8 } [123, 34, 97, 34, 58, 49, 44, 125]).isSome = false := by decide
+-- the option relaxes nothing else: [,] [1,,] {,} {"a":1,,} stay refused by both
+example : accepted (run ⟨8, false, true⟩ [91, 44, 93]) = false ∧
+    (parseText { comments := false, trailingComma := true, maxDepth := 8 } [91, 44, 93]).isSome = false := by decide
+example : accepted (run ⟨8, false, true⟩ [91, 49, 44, 44, 93]) = false ∧
+    (parseText { comments := false, trailingComma := true, maxDepth := 8 } [91, 49, 44, 44, 93]).isSome = false := by decide
+example : accepted (run ⟨8, false, true⟩ [123, 44, 125]) = false ∧
+    (parseText { comments := false, trailingComma := true, maxDepth := 8 } [123, 44, 125]).isSome = false := by decide
+example : accepted (run ⟨8, false, true⟩ [123, 34, 97, 34, 58, 49, 44, 44, 125]) = false ∧
+    (parseText { comments := false, trailingComma := true, maxDepth := 8 } [123, 34, 97, 34, 58, 49, 44, 44, 125]).isSome = false := by decide
+
+/-! #### `allow_comments` -/
+
+/-- the reference's `JSON-text` with PLAIN white space only after the value, `ws value *( SP / HT / LF / CR )`, where the leading
+    `ws` and every `ws` inside the value may contain comments when `fl.comments`. This is what the parser implements: after the
+    root value its `check_done` knows no comments (finding D22 — witnesses below), so a comment after the root value is an error
+    even with `allow_comments`. -/
+abbrev parseTextPlainTail (fl : Flags) (bs : Bytes) : Option JT := Model.JsonParser.parseTextPlainTail fl bs
+
+/-- decidable: the reference's final `ws` consumed plain white space only (vacuously true when the reference reads no value) -/
+abbrev NoCommentAfterValue (fl : Flags) (bs : Bytes) : Prop := plainTail fl bs = true
+
+/-- `parseTextPlainTail` is exactly `parseText` on the texts without a comment after the value … -/
+theorem plain_tail_iff (fl : Flags) (bs : Bytes) (v : JT) :
+    parseTextPlainTail fl bs = some v ↔ (parseText fl bs = some v ∧ NoCommentAfterValue fl bs) :=
+  parseTextPlainTail_some fl bs v
+
+/-- … and is `parseText` itself when comments are off -/
+theorem plain_tail_without_comments (fl : Flags) (hc : fl.comments = false) (bs : Bytes) :
+    parseTextPlainTail fl bs = parseText fl bs :=
+  parseTextPlainTail_nc fl hc bs
+
+/-- COMPLETENESS for EVERY option setting, against the reference with exactly the parser's options (comments, trailing commas,
+    nesting limit): if the reference reads `bs` as the value `v` and no comment follows the value, the parser accepts `bs` and
+    reports exactly the events of `v` — block comments (with `*`, `**`, CR, CR LF inside), line comments (ended by CR or LF, which is
+    then read as white space), in front of the value and wherever the grammar has `ws` inside it; comments report nothing.
+    (Proof: Proofs/JsonParserOptsComments — `/* … */` and `// …` are skipped by the `slash`, `slash_star`, `slash_star_star`,
+    `slash_slash` and `cr` states exactly as by the reference's `skipWs`.) -/
+theorem parse_complete_options (cfg : Cfg) (bs : Bytes) (v : JT)
+    (h : parseText { comments := cfg.comments, trailingComma := cfg.trailingComma, maxDepth := cfg.maxDepth } bs = some v)
+    (hp : NoCommentAfterValue { comments := cfg.comments, trailingComma := cfg.trailingComma, maxDepth := cfg.maxDepth } bs) :
+    accepted (run cfg bs) = true ∧ (run cfg bs).evs.reverse.map eraseNoesc = eventsOf v :=
+  run_complete_opt cfg bs v ((parseTextPlainTail_some _ bs v).2 ⟨h, hp⟩)
+
+/-- the comment-enabled configurations in particular -/
+theorem parse_complete_comments (cfg : Cfg) (bs : Bytes) (v : JT) (hc : cfg.comments = true)
+    (h : parseTextPlainTail { comments := true, trailingComma := cfg.trailingComma, maxDepth := cfg.maxDepth } bs = some v) :
+    accepted (run cfg bs) = true ∧ (run cfg bs).evs.reverse.map eraseNoesc = eventsOf v :=
+  run_complete_opt cfg bs v (by
+    rw [show optFlags cfg = { comments := true, trailingComma := cfg.trailingComma, maxDepth := cfg.maxDepth } from (by simp [hc])]
+    exact h)
+
+/-- the options only RELAX: a text without surrogate anomaly that the strict parser accepts is accepted under every other option
+    setting (same nesting limit), with the same events -/
+theorem options_only_relax (cfg cfg' : Cfg) (bs : Bytes) (hc : cfg.comments = false) (ht : cfg.trailingComma = false)
+    (hd : cfg'.maxDepth = cfg.maxDepth) (hs : NoSurrogateAnomaly bs) (h : accepted (run cfg bs) = true) :
+    accepted (run cfg' bs) = true ∧
+      (run cfg' bs).evs.reverse.map eraseNoesc = (run cfg bs).evs.reverse.map eraseNoesc := by
+  obtain ⟨v, hv, hev⟩ := parse_sound cfg bs hc ht hs h
+  have := run_complete cfg' bs v (by rw [show strictFlags cfg' = strictFlags cfg from (by simp [hd])]; exact hv)
+  exact ⟨this.1, this.2.trans hev.symm⟩
+
+-- non-vacuity: [1/*c*/,2] and [1,//x<LF>2] and [/*<CR>**/1<CR>] and, with both options, {"a"/**/:/**/1,/**/} <LF>
+example : (parseTextPlainTail { comments := true, trailingComma := false, maxDepth := 8 } [91, 49, 47, 42, 99, 42, 47, 44, 50, 93]).isSome = true := by
+  decide
+example : accepted (run ⟨8, true, false⟩ [91, 49, 47, 42, 99, 42, 47, 44, 50, 93]) = true ∧
+    (run ⟨8, true, false⟩ [91, 49, 47, 42, 99, 42, 47, 44, 50, 93]).evs.reverse = [.beginArray, .int [49], .int [50], .endArray] := by decide
+example : (parseTextPlainTail { comments := true, trailingComma := false, maxDepth := 8 } [91, 49, 44, 47, 47, 120, 10, 50, 93]).isSome = true ∧
+    accepted (run ⟨8, true, false⟩ [91, 49, 44, 47, 47, 120, 10, 50, 93]) = true := by decide
+example : (parseTextPlainTail { comments := true, trailingComma := false, maxDepth := 8 } [91, 47, 42, 13, 42, 42, 47, 49, 13, 93]).isSome = true ∧
+    accepted (run ⟨8, true, false⟩ [91, 47, 42, 13, 42, 42, 47, 49, 13, 93]) = true := by decide
+example : (parseTextPlainTail { comments := true, trailingComma := true, maxDepth := 8 }
+      [123, 34, 97, 34, 47, 42, 42, 47, 58, 47, 42, 42, 47, 49, 44, 47, 42, 42, 47, 125, 32, 10]).isSome = true ∧
+    accepted (run ⟨8, true, true⟩ [123, 34, 97, 34, 47, 42, 42, 47, 58, 47, 42, 42, 47, 49, 44, 47, 42, 42, 47, 125, 32, 10]) = true := by decide
+-- D22 (recorded divergence): a comment AFTER the root value — [1/*c*/,2]//x and 1/**/ — the reference's final `ws` takes it, the
+-- parser's `check_done` refuses it with extra_character; `NoCommentAfterValue` is false on exactly these
+example : (parseText { comments := true, trailingComma := false, maxDepth := 8 } [91, 49, 47, 42, 99, 42, 47, 44, 50, 93, 47, 47, 120]).isSome = true ∧
+    (run ⟨8, true, false⟩ [91, 49, 47, 42, 99, 42, 47, 44, 50, 93, 47, 47, 120]).err = some eExtraCharacter ∧
+    ¬ NoCommentAfterValue { comments := true, trailingComma := false, maxDepth := 8 } [91, 49, 47, 42, 99, 42, 47, 44, 50, 93, 47, 47, 120] := by
+  decide
+example : (parseText { comments := true, trailingComma := false, maxDepth := 8 } [49, 47, 42, 42, 47]).isSome = true ∧
+    (run ⟨8, true, false⟩ [49, 47, 42, 42, 47]).err = some eExtraCharacter := by decide
+-- both refuse: an unterminated block comment [1/* (unexpected_eof), a lone slash [1/ ] (syntax_error), a line comment that runs to
+-- the end of the input [1//x (unexpected_eof), /*/ (the `*` cannot serve twice); with comments off a comment is illegal_comment
+example : (run ⟨8, true, false⟩ [91, 49, 47, 42]).err = some eUnexpectedEof ∧
+    parseText { comments := true, trailingComma := false, maxDepth := 8 } [91, 49, 47, 42] = none := by decide
+example : (run ⟨8, true, false⟩ [91, 49, 47, 32, 93]).err = some eSyntax ∧
+    parseText { comments := true, trailingComma := false, maxDepth := 8 } [91, 49, 47, 32, 93] = none := by decide
+example : (run ⟨8, true, false⟩ [91, 49, 47, 47, 120]).err = some eUnexpectedEof ∧
+    parseText { comments := true, trailingComma := false, maxDepth := 8 } [91, 49, 47, 47, 120] = none := by decide
+example : (run ⟨8, true, false⟩ [47, 42, 47, 49]).err = some eUnexpectedEof ∧
+    parseText { comments := true, trailingComma := false, maxDepth := 8 } [47, 42, 47, 49] = none := by decide
+example : (run ⟨8, false, false⟩ [91, 49, 47, 42, 42, 47, 93]).err = some eIllegalComment ∧
+    parseText { comments := false, trailingComma := false, maxDepth := 8 } [91, 49, 47, 42, 42, 47, 93] = none := by decide
+
+/-- `allow_comments` relaxes NOTHING on a text without the byte `/`: the whole outcome of the parser (final state, events, error
+    code) is the same with the option on and off (the `slash` state, the only cell that consults the option, is entered by a `/`
+    only — Proofs/JsonParserOptsSlashFree) -/
+theorem comments_option_irrelevant_without_slash (cfg : Cfg) (b : Bool) (bs : Bytes) (h : ∀ x ∈ bs, x ≠ 47) :
+    run { cfg with comments := b } bs = run cfg bs :=
+  run_comments_slash_free cfg b bs h
+
+/-- EXACTNESS for EVERY option setting on `/`-free texts without surrogate anomaly: whatever `allow_comments` is, the parser
+    accepts exactly what the reference without comments and with the parser's trailing-comma flag derives -/
+theorem options_relax_exactly_slash_free (cfg : Cfg) (bs : Bytes) (h47 : ∀ x ∈ bs, x ≠ 47) (hs : NoSurrogateAnomaly bs) :
+    accepted (run cfg bs) = true ↔
+      (parseText { comments := false, trailingComma := cfg.trailingComma, maxDepth := cfg.maxDepth } bs).isSome = true := by
+  rw [← run_comments_slash_free cfg false bs h47]
+  exact parse_exact_any_trailing_comma { cfg with comments := false } bs rfl hs
+
+example : (run ⟨8, true, true⟩ [91, 49, 44, 93]).evs = (run ⟨8, false, true⟩ [91, 49, 44, 93]).evs := by decide
+
+end ParserOptions
 
 /-! ### the option flags relax exactly one construct each (kernel-evaluated instances, all four flag pairs) -/
 def fl (c t : Bool) : Flags := { comments := c, trailingComma := t, maxDepth := 1024 }
